@@ -24,4 +24,14 @@ def run(tier):
             if (v["kind"] == "assert" and v["id"].startswith("C11.")) or v["kind"] == "deadlock":
                 c.handle("ship", entry, v, make_tape=ship_tape, hang_s=6)
     hubstep.run_hub(c, ["H_Hub_C11_Closed"], ("C11.",))
+    # the same step racing the registration of a newer connection (two goroutines, delay-bounded schedules)
+    res3, meta3 = lib.run_engine("hub", ["H_Hub_C11_CloseVsRegister"], sched="explore", preempt=4, cuts=hubstep.HUB_CUTS, loop=64)
+    c.add_run("close-vs-register", res3, meta3)
+    c.bounds["delay_bound_close_vs_register"] = 4
+    for e, r in (res3 or {}).items():
+        if not r["covers"].get("hub.end"):
+            c.covers_missing.append(e + ":hub.end")
+        for v in r["violations"] or []:
+            if v["kind"] in ("assert", "panic", "deadlock"):
+                c.handle("hub", e, v, replay=False)
     return c.finish()
